@@ -431,7 +431,30 @@ def g_init(tier):
     yield mkprog('deep/init/param', [A(V('va'), Call('fi', [V('vb')]))], funcs=[fi])
 
 
+def g_xfn(tier):
+    """what the generator remembers (flags, registers) at the end of one function must not be trusted at the start of the next:
+    a function ending in a flag-setting statement, followed in the file by a function that starts with a zero test"""
+    last = [('X=va', lambda: A(X, V('va'))), ('Y=va', lambda: A(Y, V('va'))), ('va=vb', lambda: A(V('va'), V('vb'))), ('va++', lambda: ExprS(Inc('++', False, V('va')))), ('X++', lambda: ExprS(Inc('++', False, X))),
+            ('Y--', lambda: ExprS(Inc('--', False, Y))), ('va=vb+1', lambda: A(V('va'), B('+', V('vb'), C(1)))), ('aX=va', lambda: A(Index('arr', X), V('va'))), ('va=aY', lambda: A(V('va'), Index('arr', Y))),
+            ('if', lambda: If(V('va'), A(V('vb'), C(1)))), ('va=0', lambda: A(V('va'), C(0))), ('X=3', lambda: A(X, C(3))), ('cmp', lambda: If(B('<', V('va'), V('vb')), A(V('vd'), C(1)))), ('wa++', lambda: ExprS(Inc('++', False, V('wa')))),
+            ('ret', lambda: A(V('vd'), B('&', V('va'), C(1))))]
+    for (ln, l), zn in itertools.product(last, ('X', 'Y', 'va', 'vb', 'wa')):
+        Z = lambda: V(zn)
+        f = lambda: Func('f', None, [], Block([l()]))
+        base = 'deep/xfn/%s/%s' % (ln, zn)
+        if not keep(base, tier, 60): continue
+        yield mkprog(base + '/if', [If(Z(), A(V('vc'), C(1)), A(V('vc'), C(2)))], funcs=[f()], extra_globals=['va', 'vb', 'vd', 'arr', 'wa'])
+        yield mkprog(base + '/if0', [If(B('==', Z(), C(0)), A(V('vc'), C(1)), A(V('vc'), C(2)))], funcs=[f()], extra_globals=['va', 'vb', 'vd', 'arr', 'wa'])
+        yield mkprog(base + '/while', [While(Z(), Block([A(Z(), C(0)), A(V('vc'), C(1))]))], funcs=[f()], extra_globals=['va', 'vb', 'vd', 'arr', 'wa'])
+        yield mkprog(base + '/tern', [A(V('vc'), Tern(Z(), C(1), C(2)))], funcs=[f()], extra_globals=['va', 'vb', 'vd', 'arr', 'wa'])
+        yield mkprog(base + '/called-later', [If(Z(), A(V('vc'), C(1)), A(V('vc'), C(2))), ExprS(Call('f', []))], funcs=[f()], extra_globals=['va', 'vb', 'vd', 'arr', 'wa'])
+        # the second function is a callee entered from two different flag states
+        g = Func('g', None, [], Block([If(Z(), A(V('vc'), C(1)), A(V('vc'), C(2)))]))
+        yield mkprog(base + '/callee', [A(V('sb'), C(0)), ExprS(Call('g', [])), A(V('sb'), C(1)), ExprS(Call('g', []))], funcs=[f(), g], extra_globals=['va', 'vb', 'vd', 'arr', 'wa'])
+
+
 def g_deep(tier):
+    yield from g_xfn(tier)
     yield from g_init(tier)
     yield from g_regconst(tier)
     yield from g_bare(tier)
